@@ -265,7 +265,19 @@ theorem cleanup_K (cfg : Cfg) (res : List Nat) (n0 : Nat) (snap cur : List Conn)
           · refine ⟨⟨hlt c hc, ?_⟩, not_mem_ids_erase hnd hc⟩
             have := hcond.1.2
             simpa [isReserved] using this
-        · exact ih cur closing hnd hsn' (fun x hx => hsub x (by simp [hx])) hlt hcl
+        · split
+          · rename_i hcond
+            simp only [Bool.and_eq_true, Bool.not_eq_eq_eq_not, Bool.not_true] at hcond
+            apply keepE
+            intro x hx
+            rw [retired_append] at hx
+            simp only [ne_eq, reduceCtorEq, not_false_eq_true, if_true, List.mem_append, List.mem_singleton] at hx
+            rcases hx with hx | rfl
+            · exact oldE x hx
+            · refine ⟨⟨hlt c hc, ?_⟩, not_mem_ids_erase hnd hc⟩
+              have := hcond.1.2
+              simpa [isReserved] using this
+          · exact ih cur closing hnd hsn' (fun x hx => hsub x (by simp [hx])) hlt hcl
 
 /-- **C08.pass_never_retires_held_connection** — with the reservation rule of the current source, for every pool state whose
 connections are distinct objects with distinct ids (below `nextId`): no connection that the pass closes as surplus or evicts to
